@@ -248,7 +248,10 @@ def make_backend(case):
         if _MR[0] is None:
             _MR[0] = MiniRedis()
         mr = _MR[0]
-        prefix = 'c15-%d-%d:' % (os.getpid(), next(_SEQ))
+        # the documented prefix is "any string": vary its shape (colon-terminated namespace, several
+        # colons, no colon at all, non-alphanumeric end) -- the ids load() lists must not depend on it
+        n = next(_SEQ)
+        prefix = ('c15-%d-%d:', 'c15:%d:%d:', 'c15-%d-%d-', 'c15.%d.%d/')[n % 4] % (os.getpid(), n)
         st = RedisStorage('127.0.0.1', mr.port, prefix=prefix)
         if 'delay_seed' in case:
             drnd = random.Random(case['delay_seed'])
